@@ -2,7 +2,7 @@
     Statements only; every proof is [exact <lemma of proof/C15_Proof.v>]. *)
 From stdpp Require Import gmap strings sets pretty sorting.
 From SK Require Import model.C15_Model proof.C15_Proof.
-From SK Require Import model.C15_Ext proof.C15_Ext proof.C15_ExtQ proof.C15_ExtEx.
+From SK Require Import model.C15_Ext proof.C15_Ext proof.C15_ExtQ proof.C15_ExtP proof.C15_ExtEx.
 Local Open Scope string_scope.
 
 (** ** 1. The store invariant *)
@@ -249,6 +249,26 @@ Proof.
 Qed.
 Print Assumptions C15_caller_objects.
 
+(** sides handed over as RXNSide objects are stored BY VALUE: a successful add
+    stores, under a free id, exactly the sides the objects had at call time (and
+    by [C15_frame2] / [C15_stored_kept2] / [C15_caller_objects] nothing done
+    later to those objects or to the network they came from reaches it) *)
+Theorem C15_added_objects_by_value :
+  (forall (w : world2) (i kl kr : nat) (rule : string) (eid : option string),
+     (i < length (nets w))%nat -> (step2 w (OAddPool i kl kr rule eid)).1.2 = None ->
+     exists e, edges (getn (nets w) i) !! e = None /\
+       edges (getn (nets (step2 w (OAddPool i kl kr rule eid)).1.1) i) !! e =
+         Some (Rxn (norm_rule rule) (getp (pool w) kl) (getp (pool w) kr)) /\
+       pool (step2 w (OAddPool i kl kr rule eid)).1.1 = pool w) /\
+  (forall (w : world2) (i j : nat) (e0 rule : string) (eid : option string) (rx : rxn),
+     (i < length (nets w))%nat -> edges (getn (nets w) j) !! e0 = Some rx ->
+     (step2 w (OAddFrom i j e0 rule eid)).1.2 = None ->
+     exists e, edges (getn (nets w) i) !! e = None /\
+       edges (getn (nets (step2 w (OAddFrom i j e0 rule eid)).1.1) i) !! e =
+         Some (Rxn (norm_rule rule) (r_lhs rx) (r_rhs rx))).
+Proof. split; [exact add_pool_stores|exact add_from_stores]. Qed.
+Print Assumptions C15_added_objects_by_value.
+
 (** *** molecule labels: stored exactly for present species, never for reaction ids *)
 
 Theorem C15_set_mol_map_spec : forall (s : net) (mp : list (string * string)) (strict clear : bool)
@@ -304,6 +324,27 @@ Theorem C15_get_after_assign : forall (s : net) (x m : string) (s' : net),
   assign_mol s x m = (s', None) -> get_mol s' x = inr m.
 Proof. exact get_after_assign. Qed.
 Print Assumptions C15_get_after_assign.
+
+(** history level for labels: whatever the operation (old or extended language),
+    unless it is a label operation on that species / table or a copy onto that
+    network, a species that is still present keeps exactly the label it had
+    (or none), and a name that is not present has none: a label is dropped only
+    together with its species and never appears or changes as a side effect *)
+Theorem C15_labels_kept : forall (w : world2) (o : op2) (k : nat) (x : string),
+  Forall Inv (nets w) ->
+  ~ match o with
+    | OBase (OAssignMol i x' _) => i = k /\ x' = x
+    | OBase (OSetMolMap i _ _ _) => i = k
+    | OBase (OCopy _ j) => j = k
+    | _ => False
+    end ->
+  mol (getn (nets (step2 w o).1.1) k) !! x =
+    if decide (x ∈ species (getn (nets (step2 w o).1.1) k)) then mol (getn (nets w) k) !! x else None.
+Proof.
+  intros w o k x Hw Hn. apply step2_labels_kept; [exact Hw|].
+  intros Hd. apply Hn. destruct o as [[]| | | | | | | | | |]; exact Hd.
+Qed.
+Print Assumptions C15_labels_kept.
 
 (** *** caller-side coefficient edits through a returned edge *)
 
@@ -386,12 +427,20 @@ Print Assumptions C15_neighbors_spec.
 
 (** paths (soundness): every reported path starts at the source, ends at the
     target, visits no species twice, moves along neighbours, and has at most
-    max_hops edges.  (Completeness and the order of the answers: oracle only.) *)
+    max_hops edges *)
 Theorem C15_paths_sound : forall (s : net) (a b : string) (h : Z) (m : option Z) (ps : list (list string)) (p : list string),
   Inv s -> paths s a b h m = inr ps -> p ∈ ps ->
   exists rp, p = reverse rp /\ rpath s a rp /\ head rp = Some b /\ (Z.of_nat (length p) <= h + 1)%Z.
 Proof. exact paths_sound. Qed.
 Print Assumptions C15_paths_sound.
+
+(** paths (completeness): without max_paths every such chain is reported.
+    (The order of the answers and the max_paths cut: oracle only.) *)
+Theorem C15_paths_complete : forall (s : net) (a b : string) (h : Z) (ps : list (list string)) (rp : list string),
+  Inv s -> paths s a b h None = inr ps ->
+  rpath s a rp -> head rp = Some b -> (Z.of_nat (length rp) <= h + 1)%Z -> reverse rp ∈ ps.
+Proof. exact paths_complete. Qed.
+Print Assumptions C15_paths_complete.
 
 (** what [rpath] says: built from [src] by steps to a neighbour not yet visited *)
 Theorem C15_rpath_meaning : forall (s : net) (src : string) (rp : list string),
